@@ -71,6 +71,28 @@ Section First.
       with (rep (mt U (Chr k)) (S (length (run ++ rest))) mn None pos (run ++ rest) cs).
     apply rep_class_run; try assumption. rewrite app_length. lia.
   Qed.
+
+  Lemma first_alt_left a b pos s cs x : first a pos s cs = Some x -> first (Alt a b) pos s cs = Some x.
+  Proof. unfold first. simpl. destruct (mt U a pos s cs); [discriminate|]. simpl. auto. Qed.
+  Lemma first_alt_right a b pos s cs : mt U a pos s cs = [] -> first (Alt a b) pos s cs = first b pos s cs.
+  Proof. unfold first. simpl. intro H. rewrite H. reflexivity. Qed.
+
+  (* an optional part: taken when it matches (and consumes), skipped when it cannot match *)
+  Lemma first_opt_some a pos s cs c1 p1 s1 :
+    first a pos s cs = Some (c1, p1, s1) -> pos < p1 -> first (Rep 0 (Some 1) a) pos s cs = Some (c1, p1, s1).
+  Proof.
+    unfold first. intros H L.
+    change (mt U (Rep 0 (Some 1) a) pos s cs) with (rep (mt U a) (S (length s)) 0 (Some 1) pos s cs).
+    cbn [rep]. destruct (mt U a pos s cs) as [|[[c p] t] r]; [discriminate|]. simpl in H. inversion H; subst.
+    cbn [flat_map]. apply Nat.ltb_lt in L. rewrite L. cbn [option_map pred].
+    destruct (length s); reflexivity.
+  Qed.
+  Lemma first_opt_none a pos s cs : mt U a pos s cs = [] -> first (Rep 0 (Some 1) a) pos s cs = Some (cs, pos, s).
+  Proof.
+    unfold first. intro H.
+    change (mt U (Rep 0 (Some 1) a) pos s cs) with (rep (mt U a) (S (length s)) 0 (Some 1) pos s cs).
+    cbn [rep]. rewrite H. reflexivity.
+  Qed.
 End First.
 
 (** substrings of concatenations *)
